@@ -2,6 +2,7 @@ mod backend;
 mod codec;
 mod gen;
 mod reftree;
+mod jslayout;
 mod rng;
 mod sim;
 mod watchdog;
@@ -72,6 +73,7 @@ fn main() {
         "backends" => { finish(&out, gen::backend_sequences(seed, n)); }
         "faults" => { finish(&out, gen::fault_histories(seed, n, arg("--maxops", "8").parse().unwrap())); }
         "tree" => { finish(&out, gen::tree_histories(seed, n, arg("--maxlen", "70").parse().unwrap())); }
+        "layout" => { finish(&out, gen::layout_histories(seed, n, arg("--maxops", "14").parse().unwrap())); }
         "repl" => {
             let maxlen: u64 = arg("--maxlen", "20").parse().unwrap();
             let mode = match arg("--mode", "log").as_str() { "crash" => gen::Mode::Crash, "torn" => gen::Mode::Torn, _ => gen::Mode::Log };
